@@ -27,8 +27,15 @@ CLAIMED['C04'] = dict(
     text=_T + 'BIP143 digest compared with double-SHA256(UF) of an independent BIP143 pre-image for symbolic hash-type byte, amount 0..2^63-1 and all fields '
          'over their full wire range (this is what exposed the signed nLockTime packing, now fixed); no exception on any in-range value.',
     note='SHA-256 uninterpreted incl. hashPrevouts/hashSequence/hashOutputs; script-code lengths {0,1,3,0xfc,0xfd,0x100}; n_in<=3, n_out<=3.')
+CLAIMED['C20'] = dict(
+    text=_T + 'MurmurHash3 equals the reference x86_32 algorithm for ALL 32-bit seeds and ALL data of every length 0..24 (quick) / 0..40 (thorough); '
+         'insert/contains/serialise decided against the BIP37 schedule for symbolic filter contents, tweak, flags and elements; empty-data filters; '
+         'size and hash-count caps decided in IEEE double arithmetic (cvc5 QF_BVFP) for every element count up to 2^40 and every negative finite logarithm value.',
+    note='filter-logic instances with more than one hash function or non-power-of-two sizes treat MurmurHash3 as one uninterpreted function on both sides '
+         '(compositional with the murmur harness); math.log modelled as an arbitrary negative finite double; trusts z3/cvc5 FP semantics.',
+    technique='bounded symbolic execution of the real Python source on z3 proxies; BV queries by z3, floating-point sizing queries by cvc5')
 _UC = 'check not built yet in this round (engine exists; harness pending) - will be claimed or declared not applicable with its real reason'
-for _i in ['C05','C06','C07','C08','C09','C10','C11','C12','C14','C16','C18','C19','C20']:
+for _i in ['C05','C06','C07','C08','C09','C10','C11','C12','C14','C16','C18','C19']:
     NA[_i] = _UC
 NA['C13'] = ('key derivation, signing, verification and point validity are computed by OpenSSL through ctypes: there is no Python or IR to execute '
              'symbolically, and the reference (secp256k1 group law, 256-bit modular inversion) is non-linear 256-bit arithmetic out of reach of z3/cvc5')
